@@ -202,7 +202,68 @@ fn run(ctx: &RunCtx) -> Report {
         }
     };
     let t_put = sim.with_op(op, |o| o.issued_at);
+    // 1 announce_peer run in 3: a second announce_peer for the same info hash with ANOTHER port is
+    // issued while the first is in flight. Whatever happens to the first call (it may be superseded:
+    // puts are keyed by target, see the open finding of C01), the second one is a put of its own:
+    // Ok only if a store request carrying its own port was acknowledged.
+    let overlap = kind == 2 && !big && rng.chance(1, 3);
+    let mut op2: Option<OpId> = None;
+    if overlap {
+        let delta = match rng.below(4) {
+            0 => 0,
+            1 => rng.range(1, 120) * MS,
+            2 => rng.range(120, 700) * MS,
+            _ => rng.range(700, 2500) * MS,
+        };
+        sim.run_for(delta);
+        op2 = Some(sim.announce_peer(writer, info_hash, Some(4001)));
+        report.probe("overlapping_announce_other_port", 1);
+    }
     let done = sim.run_ops(&[op], sim.now() + 180 * SEC);
+    if let Some(o2) = op2 {
+        let done2 = sim.run_ops(&[o2], sim.now() + 180 * SEC);
+        let t_done2 = sim.with_op(o2, |o| o.done_at).unwrap_or(sim.now());
+        let r2 = sim.take_outcome(o2);
+        if !done2 {
+            report.violate("hang", "second-announce-did-not-return", "the overlapping announce_peer (other port) did not return within 180 s".into());
+        } else if let Some(Outcome::Announce(r2)) = r2 {
+            // store requests that carry the second call's port, and the first copy of their replies
+            let (own_stores, own_acks, own_acks_in_time) = sim.with_trace(|tr| {
+                let mut own: Vec<(SocketAddrV4, u32, u64)> = vec![];
+                for d in tr.iter().filter(|d| d.from_host == Some(writer) && d.dup_of.is_none()) {
+                    if let Some(k) = Krpc::parse(&d.bytes) {
+                        if k.query_name() == Some("announce_peer") && k.target() == Some(target) && k.int_field("port") == Some(4001) {
+                            own.push((d.dst, k.tid_u32().unwrap_or(0), d.t_send));
+                        }
+                    }
+                }
+                let (mut acks, mut in_time) = (0usize, 0usize);
+                let mut counted: BTreeSet<(SocketAddrV4, u32)> = BTreeSet::new();
+                for d in tr.iter().filter(|d| d.dst == writer_addr && d.fate == Fate::Delivered) {
+                    let Some(k) = Krpc::parse(&d.bytes) else { continue };
+                    if !k.is_response() {
+                        continue;
+                    }
+                    if let Some(s) = own.iter().find(|s| s.0 == d.src && Some(s.1) == k.tid_u32()) {
+                        if counted.insert((s.0, s.1)) && d.t_deliver.unwrap() <= t_done2 {
+                            acks += 1;
+                            if d.t_deliver.unwrap().saturating_sub(s.2) < 500 * MS {
+                                in_time += 1;
+                            }
+                        }
+                    }
+                }
+                (own.len(), acks, in_time)
+            });
+            match r2 {
+                Ok(_) if own_stores == 0 => report.violate("false-ok", "ok-without-own-store-request", "the second announce_peer (port 4001) returned Ok although no store request carrying its port was ever sent: nobody holds that announcement".into()),
+                Ok(_) if own_acks == 0 => report.violate("false-ok", "ok-without-own-ack", format!("the second announce_peer (port 4001) returned Ok although none of its {own_stores} store requests was acknowledged before it returned")),
+                Err(e) if own_acks_in_time >= 1 => report.violate("false-error", "error-despite-own-ack", format!("the second announce_peer (port 4001) returned {e:?} although {own_acks_in_time} of its store requests were acknowledged in time")),
+                _ => {}
+            }
+            report.probe("overlapping_announce_judged", 1);
+        }
+    }
     let t_done = sim.with_op(op, |o| o.done_at).unwrap_or(sim.now());
     let panicked = sim.with_op(op, |o| o.panicked.clone());
     let result: Option<Res> = match sim.take_outcome(op) {
@@ -321,6 +382,8 @@ fn run(ctx: &RunCtx) -> Report {
         report.violate("node-died", "writer-actor-panicked", format!("writer died: {d}"));
     } else if !done {
         report.violate("hang", "put-did-not-return", format!("the put did not return within 180 s ({} store requests sent)", stores.len()));
+    } else if overlap {
+        // the first call may be superseded by the second: only its termination is judged here
     } else if let Some(res) = &result {
         let mutable = kind == 1;
         let n = stores.len();
